@@ -463,7 +463,29 @@ func (g *Gen) loopModified(li *loopInfo) (map[string][]ssa.Value, bool) {
 			}
 			return
 		}
+		for {
+			if mi, ok := base.(*ssa.MakeInterface); ok {
+				base = mi.X
+				continue
+			}
+			if ct, ok := base.(*ssa.ChangeType); ok {
+				base = ct.X
+				continue
+			}
+			break
+		}
 		if inLoop(base) {
+			if c, ok := base.(*ssa.Call); ok {
+				if f, ok := c.Call.Value.(*ssa.Function); ok {
+					if fc := g.E.contracts.Funcs[funcKey(f)]; fc != nil && fc.Opts["fresh"] == "true" {
+						// the callee returns a freshly allocated object
+						if _, ok := mods[h]; !ok {
+							mods[h] = []ssa.Value{}
+						}
+						return
+					}
+				}
+			}
 			switch base.(type) {
 			case *ssa.Alloc, *ssa.MakeSlice, *ssa.MakeMap:
 				// fresh object: not visible before the loop
@@ -760,6 +782,19 @@ func (g *Gen) callModBases(c *ssa.CallCommon) map[string]ssa.Value {
 					}
 				}
 			}
+			if c, ok := le.(*ECall); ok && c.Fun == "fields" && base != nil {
+				// embedded structs live at sub-references: a single base does not describe them
+				if pt, ok := base.Type().Underlying().(*types.Pointer); ok {
+					if st, ok := pt.Elem().Underlying().(*types.Struct); ok {
+						for i := 0; i < st.NumFields(); i++ {
+							if _, nested := st.Field(i).Type().Underlying().(*types.Struct); nested {
+								base = nil
+								break
+							}
+						}
+					}
+				}
+			}
 			for _, h := range hs {
 				seen[h]++
 				if seen[h] > 1 || base == nil {
@@ -819,6 +854,28 @@ func (g *Gen) locHeaps(key string, le Expr) []string {
 			if f, ok := x.Args[0].(*EField); ok {
 				return g.E.fieldHeapsNamed(g, f.Name)
 			}
+		case "fields":
+			var hs []string
+			if id, ok := x.Args[0].(*EIdent); ok {
+				if f := g.E.funcs[key]; f != nil {
+					for _, p := range f.Params {
+						if p.Name() == id.Name {
+							if pt, ok := p.Type().Underlying().(*types.Pointer); ok {
+								if _, ok := pt.Elem().Underlying().(*types.Struct); ok {
+									g.leafHeaps(pt.Elem(), &hs)
+									return hs
+								}
+							}
+						}
+					}
+				}
+			}
+			for h := range g.heapSort {
+				if strings.HasPrefix(h, "F.") {
+					hs = append(hs, h)
+				}
+			}
+			return hs
 		}
 	case *EIdent:
 		if gd, ok := g.E.contracts.Ghosts[x.Name]; ok && gd.Kind == "var" {
@@ -910,6 +967,28 @@ func (g *Gen) frameObligations(pos token.Pos) {
 	env := g.fnEnv(g.entry, nil)
 	for _, m := range g.fc.Modifies {
 		for _, le := range m.Es {
+			if c, ok := le.(*ECall); ok && c.Fun == "fields" && len(c.Args) == 1 {
+				v, err := g.evalVal(env, c.Args[0])
+				if err != nil {
+					g.E.fatalf("%s:%d: %v", m.File, m.Line, err)
+					continue
+				}
+				if pt, ok := v.T.Underlying().(*types.Pointer); ok && v.Addr == nil {
+					var walk func(t types.Type, r string)
+					walk = func(t types.Type, r string) {
+						s := t.Underlying().(*types.Struct)
+						for i := 0; i < s.NumFields(); i++ {
+							if _, isStruct := s.Field(i).Type().Underlying().(*types.Struct); isStruct {
+								walk(s.Field(i).Type(), g.subRef(t, i, r))
+							} else {
+								allowed = append(allowed, loc{g.fieldHeap(t, i), r})
+							}
+						}
+					}
+					walk(pt.Elem(), v.S)
+				}
+				continue
+			}
 			heaps, idx, whole, err := g.locOf(env, le)
 			if err != nil {
 				g.E.fatalf("%s:%d: %v", m.File, m.Line, err)
@@ -967,6 +1046,19 @@ func (g *Gen) frameObligations(pos token.Pos) {
 		goal := fmt.Sprintf("(forall ((r Int)) (=> (and (< r |$alloc@0|) (< (ref.root r) |$alloc@0|) %s true) (= (select %s r) (select %s r))))", strings.Join(exc, " "), cur, ent)
 		g.oblige("frame", n, goal, pos, "")
 	}
+}
+
+func (g *Gen) evalVal(env *Env, e Expr) (v Val, err error) {
+	defer func() {
+		if r := recover(); r != nil {
+			if ee, ok := r.(evalErr); ok {
+				err = fmt.Errorf("%s", string(ee))
+				return
+			}
+			panic(r)
+		}
+	}()
+	return g.eval(env, e), nil
 }
 
 // locOf resolves a modifies location to heap variable(s) and index term.
